@@ -3,6 +3,7 @@ package main
 import (
 	"fmt"
 	"go/token"
+	"go/types"
 	"sort"
 	"strings"
 
@@ -265,10 +266,50 @@ func checkC04(c *Ctx, r *Report) {
 
 	// ---- R6 ---------------------------------------------------------------
 	r6 := r.Rule("C04-R6", "E1", 4, "close paths release their scope on every path")
+	// every closing method in the method set of a scope-holding connection wrapper must be the wrapper's own
+	// (not promoted from the embedded connection) and release the scope on every path
+	for _, e := range []struct{ pkg, typ, field string }{
+		{"p2p/net/upgrader", "transportConn", "p2p/net/upgrader.transportConn.scope"},
+		{"p2p/transport/tcpreuse", "connWithScope", "p2p/transport/tcpreuse.connWithScope.ConnScope"},
+	} {
+		named := c.Named(e.pkg, e.typ)
+		if named == nil {
+			r6.Err(e.pkg+"."+e.typ, "type does not resolve")
+			continue
+		}
+		mset := c.Prog.MethodSets.MethodSet(types.NewPointer(named))
+		for _, name := range []string{"Close", "CloseWithError"} {
+			var sel *types.Selection
+			for i := 0; i < mset.Len(); i++ {
+				if mset.At(i).Obj().Name() == name {
+					sel = mset.At(i)
+				}
+			}
+			key := "(*" + e.pkg + "." + e.typ + ")." + name
+			if sel == nil {
+				continue // the wrapper has no such method at all
+			}
+			if len(sel.Index()) > 1 {
+				r6.Fail(key+": scope.Done() on every path", named.Obj().Pos(), "the method is promoted from the embedded connection: closing through it does not release the resource scope held by the wrapper", "")
+				continue
+			}
+			f := c.Prog.MethodValue(sel)
+			if f == nil || f.Blocks == nil {
+				r6.Err(key, "method body not available")
+				continue
+			}
+			isDone := func(in ssa.Instruction) bool {
+				ci, ok := in.(ssa.CallInstruction)
+				if !ok || !calleeNameIs(in, "Done") {
+					return false
+				}
+				return isLoadOfField(e.field)(strip2(callArgs(ci)[0]))
+			}
+			w, n := (&Cut{Fn: f, Target: func(in ssa.Instruction) bool { _, ok := in.(*ssa.Return); return ok }, Sep: isDone}).Run(c)
+			r6.Check(w == "", key+": scope.Done() on every path", f.Pos(), n+1, "", "closing no longer releases the resource scope", w)
+		}
+	}
 	for _, e := range []struct{ fn, field string }{
-		{"(*p2p/net/upgrader.transportConn).Close", "p2p/net/upgrader.transportConn.scope"},
-		{"(*p2p/net/upgrader.transportConn).CloseWithError", "p2p/net/upgrader.transportConn.scope"},
-		{"(*p2p/transport/tcpreuse.connWithScope).Close", "p2p/transport/tcpreuse.connWithScope.ConnScope"},
 		{"(*p2p/net/swarm.Conn).removeStream", "p2p/net/swarm.Stream.scope"},
 	} {
 		f := r6.need(e.fn)
